@@ -110,7 +110,7 @@ def specials():
 def params(ctx):
     if ctx.quick:
         return dict(items_large=False, nv=3, nodecap=8, seeds_k=3, seed_nodes=8, rnd=10, items_sample=6000)
-    return dict(items_large=True, nv=7, nodecap=1000, seeds_k=10, seed_nodes=30, rnd=40, items_sample=None)
+    return dict(items_large=True, nv=7, nodecap=1000, seeds_k=10, seed_nodes=30, rnd=40, items_sample=150000)
 
 
 def printed_cases(res):
@@ -280,7 +280,7 @@ def selftest(ctx, trace):
 
 def run(ctx):
     ctx.cov["rule"] = ("cases = stored witnesses + design-level counterexamples + every byte string of length <= 4 over the boundary alphabet + "
-                       "(a seeded sample of, thorough: all) items with <= 3 leaves + per type: boundary samples and seeded real objects with "
+                       "a seeded sample (quick 6 000, thorough 150 000) of the items with <= 3 leaves (all of them are checked in M) + per type: boundary samples and seeded real objects with "
                        "every spec-defined mutation at the selected nodes + driver-side random flips; non-trivial = hostile or mutated input "
                        "(not a verbatim encoding); distinct by (type, bytes)")
     ctx.assumptions += ["inputs below 16 MiB (size-of-size <= 3 bytes)",
